@@ -928,6 +928,82 @@ impl Fam for ShortVsFullNames {
 	}
 }
 
+#[derive(Serialize, Deserialize, Debug, Clone)]
+pub struct SkippedOptionals {
+	/// optional fields that are NOT PRESENTED when `None` (the serializer has to fill in the null
+	/// branch), each followed in the schema by zero, one, two or three presented fields
+	#[serde(skip_serializing_if = "Option::is_none", default)]
+	a: Option<i64>,
+	b: String,
+	c: i32,
+	#[serde(skip_serializing_if = "Option::is_none", default)]
+	d: Option<String>,
+	e: bool,
+	f: i64,
+	g: i32,
+	#[serde(skip_serializing_if = "Option::is_none", default)]
+	h: Option<i32>,
+	#[serde(skip_serializing_if = "Option::is_none", default)]
+	i: Option<i32>,
+	j: String,
+	#[serde(skip_serializing_if = "Option::is_none", default)]
+	k: Option<Inner>,
+}
+impl Fam for SkippedOptionals {
+	const NAME: &'static str = "struct with optional fields skipped when None (skip_serializing_if), every subset";
+	fn schema() -> S {
+		let opt = |s: S| S::Union(vec![S::Null, s]);
+		S::record(
+			"SkippedOptionals",
+			vec![
+				("a", opt(S::Long)),
+				("b", S::String),
+				("c", S::Int),
+				("d", S::Union(vec![S::String, S::Null])),
+				("e", S::Boolean),
+				("f", S::Long),
+				("g", S::Int),
+				("h", opt(S::Int)),
+				("i", opt(S::Int)),
+				("j", S::String),
+				("k", opt(inner_schema("ns.InnerS"))),
+			],
+		)
+	}
+	fn values() -> Vec<Self> {
+		(0u32..32)
+			.map(|m| SkippedOptionals {
+				a: (m & 1 != 0).then_some(i64::MIN),
+				b: "b".into(),
+				c: -65,
+				d: (m & 2 != 0).then(|| "é".to_owned()),
+				e: m % 3 == 0,
+				f: 1 << 40,
+				g: 64,
+				h: (m & 4 != 0).then_some(-1),
+				i: (m & 8 != 0).then_some(i32::MAX),
+				j: String::new(),
+				k: (m & 16 != 0).then(|| Inner { x: m as i32, y: None }),
+			})
+			.collect()
+	}
+	fn to_r(&self) -> R {
+		R::Record(vec![
+			opt_r(&self.a, 0, |v| R::Long(*v)),
+			rstr(&self.b),
+			R::Int(self.c),
+			opt_r(&self.d, 1, |v| rstr(v)),
+			R::Bool(self.e),
+			R::Long(self.f),
+			R::Int(self.g),
+			opt_r(&self.h, 0, |v| R::Int(*v)),
+			opt_r(&self.i, 0, |v| R::Int(*v)),
+			rstr(&self.j),
+			opt_r(&self.k, 0, inner_r),
+		])
+	}
+}
+
 #[derive(Serialize, Deserialize, Debug, Clone, PartialEq)]
 pub struct Borrowed<'a> {
 	s: &'a str,
@@ -1183,9 +1259,10 @@ pub fn run_all(cover: &mut Cover, out: &mut Vec<Violation>) {
 	run_family::<IntsAsDecimals>(cover, out, None);
 	run_family::<EnumsOverPlainNodes>(cover, out, None);
 	run_family::<ShortVsFullNames>(cover, out, None);
+	run_family::<SkippedOptionals>(cover, out, None);
 	run_borrowed(cover, out);
 	run_length_mismatch(cover, out);
-	cover.count("typed_families", 18);
+	cover.count("typed_families", 19);
 }
 
 pub fn replay(family: &str, idx: usize) -> Vec<Violation> {
@@ -1199,7 +1276,7 @@ pub fn replay(family: &str, idx: usize) -> Vec<Violation> {
 			}
 		)*};
 	}
-	try_fam!(Prim, Floats, Widths, Opts, UnionNewtype, UnionStructVariant, WithEnum, Colls, List, Tree, Logicals, WithNewtypes, Tuples, OptUnions, IntsAsDecimals, EnumsOverPlainNodes, ShortVsFullNames);
+	try_fam!(Prim, Floats, Widths, Opts, UnionNewtype, UnionStructVariant, WithEnum, Colls, List, Tree, Logicals, WithNewtypes, Tuples, OptUnions, IntsAsDecimals, EnumsOverPlainNodes, ShortVsFullNames, SkippedOptionals);
 	run_borrowed(&mut cover, &mut out);
 	run_length_mismatch(&mut cover, &mut out);
 	out
